@@ -354,8 +354,10 @@ class SkipPath(Exception):
     configuration): the path is dropped, its alternatives are still explored"""
 
 
-def explore(run, max_paths=4000):
-    """run(oracle) -> result; enumerates all choice sequences.  Returns [(labels, result)]"""
+def explore(run, max_paths=4000, partial=False):
+    """run(oracle) -> result; enumerates all choice sequences.  Returns [(labels, result)].  partial=True: when the space is
+    larger than max_paths, the first max_paths paths are returned (each is a real path of the model: what is found on them
+    is found; what is not found on them is *not* shown absent — the caller must treat an empty finding as undecided)"""
     out = []
     stack = [[]]
     n_run = 0
@@ -369,6 +371,8 @@ def explore(run, max_paths=4000):
         except SkipPath:
             pass
         if len(out) > max_paths or n_run > 4 * max_paths:
+            if partial:
+                return out
             raise PathLimit(f"more than {max_paths} paths")
         for i in range(len(prefix), len(o.taken)):
             for alt in range(o.taken[i] + 1, o.arity[i]):
